@@ -9,7 +9,7 @@ Line protocol driver for C03. State = (Impl sheet, Spec sheet). One output line 
   time <cell> <kind> <a> <b> <style|~>      SetCellValue(time.Time): value at the anchor, style at the raw cell
   frm <cell> <formula|~>
   sty <cell> <cell> <id>
-  gsty <cell>
+  gsty <cell>                               GetCellStyle (read-only)
   get <cell>
   mrg <cell> <cell> | unm <cell> <cell> | gm
   seq <dir> <cell> <n> {<setter> <kind> <a> <b>}^n     SetSheetRow (r) / SetSheetCol (c)
@@ -116,14 +116,9 @@ def apply (st : St) (op : Op) : St × Res :=
 
 def out (st : St) (r : Res) : St × String := (st, resTag st.impl.sst r ++ " | " ++ dump st.impl)
 
-/-- the getter compares the (upper-cased, or redirected) spelling with the stored
-reference *as text*: a spelling that is not canonical finds nothing unless it was
-redirected to an anchor (C20 `finding_getter_string_lookup`). -/
-def getOp (st : St) (c r : Nat) (u : List Char) : String :=
-  let redirected := st.impl.merges.any fun m => m.rect.contains c r
-  let canon := nameOf c r
-  -- a position inside any merged range (the anchor itself included) is replaced by the anchor's canonical name
-  if !redirected ∧ String.ofList u ≠ canon then "none" else resTag st.impl.sst (getCell st.impl c r)
+/-- the getter looks the cell up by its canonical reference, whatever accepted spelling was given -/
+def getOp (st : St) (c r : Nat) (_u : List Char) : String :=
+  resTag st.impl.sst (getCell st.impl c r)
 
 def seqOps (dir : String) (c r : Nat) : Nat → List String → Option (List Op)
   | _, [] => some []
